@@ -184,7 +184,11 @@ def run_file(case):
     collected = []
     steps = max(1, min(int(case.get("steps", 5)), 400))
     with tempfile.TemporaryDirectory(prefix="vf_c17_") as tmp:
-        path = os.path.join(tmp, "out.txt")
+        sub = os.path.join(tmp, "dir")
+        os.mkdir(sub)
+        path = os.path.join(sub, "out.txt")
+        outage = set(int(x) for x in case.get("outage", []))       # harness steps during which the target directory is away
+        had_outage = False
         fm = case.get("filemode", "a")
         if fm not in ("a", "at", "a+", "ta"):
             raise InvalidCase("filemode")
@@ -193,12 +197,22 @@ def run_file(case):
         coll = StrCollector("fc", model, path, write_count=wc, ks=case.get("ks") or [1], sink=collected, **kw)
         model.systems.add_system(coll)
         for t in range(steps):
-            model.execute()
+            if t in outage and os.path.isdir(sub):
+                os.rename(sub, sub + ".away")
+            elif t not in outage and not os.path.isdir(sub):
+                os.rename(sub + ".away", sub)
+            try:
+                model.execute()
+            except OSError:
+                if t not in outage:
+                    raise
+                had_outage = True               # the flush failed: nothing may be lost, the collector may retry later
             c = len(collected)
             should = scheduled(win, t)
             disk = ""
-            if os.path.exists(path):
-                with open(path) as fh:
+            real = path if os.path.isdir(sub) else os.path.join(sub + ".away", "out.txt")
+            if os.path.exists(real):
+                with open(real) as fh:
                     disk = fh.read()
             everything = "".join(s for items in collected for s in items)
             held = "".join(coll.records)
@@ -208,7 +222,7 @@ def run_file(case):
                 clause = "file-lost" if len(disk + held) < len(everything) else "file-duplicated"
                 raise Violation(clause, f"after timestep {t} (collection {c}, write_count {wc}): on disk {disk!r} + held {held!r} != "
                                         f"collected {everything!r}")
-            if disk != want_disk:
+            if disk != want_disk and not had_outage:        # after a failed flush the schedule is the collector's business; conservation is not
                 raise Violation("flush-schedule", f"after timestep {t} (collection {c}, write_count {wc}): on disk {disk!r}, a whole-flush "
                                                   f"prefix of {flushed} collections is {want_disk!r}")
     c = len(collected)
@@ -216,7 +230,7 @@ def run_file(case):
     empty_inside = any(len(items) == 0 for items in collected[:cycles * (wc + 1)])
     biggest = max((sum(len(i) for i in collected[j:j + wc + 1]) for j in range(0, cycles * (wc + 1), wc + 1)), default=0)
     return {"nontrivial": cycles >= 2 and wc >= 1 and empty_inside,
-            "labels": ["file", f"wc{min(wc, 3)}{'+' if wc >= 3 else ''}"] + (["flush>=64-records"] if biggest >= 64 else [])}
+            "labels": (["flush-failed-and-recovered"] if had_outage else []) + ["file", f"wc{min(wc, 3)}{'+' if wc >= 3 else ''}"] + (["flush>=64-records"] if biggest >= 64 else [])}
 
 
 def run_case(case):
@@ -245,7 +259,8 @@ def strategy(tier):
         "steps": st.integers(1, 12)})
     filec = st.fixed_dictionaries({
         "kind": st.just("file"), "ks": st.lists(st.integers(0, 3), min_size=1, max_size=8), "write_count": st.integers(0, 5),
-        "window": win, "steps": st.integers(1, 25), "filemode": st.sampled_from(["a", "a", "a", "at", "a+", "ta"])})
+        "window": win, "steps": st.integers(1, 25), "filemode": st.sampled_from(["a", "a", "a", "at", "a+", "ta"]),
+        "outage": st.one_of(st.just([]), st.just([]), st.lists(st.integers(0, 12), max_size=4))})
     from vf.fixtures import near_pow2
     # flushes of dozens of records: block-wise writing only differs from a plain loop at / beyond a block size
     bigfile = st.one_of(
